@@ -5,7 +5,7 @@ From Coq Require Import NArith ZArith List String.
 From BU Require Import Base.Exn Base.Val Base.Bytes Extract.ApiCommon.
 From BU Require Import Gen.MnemConsts Gen.MnemLangs Gen.WlMnem_Ev1.
 From BU Require Import Model.MnemWords Model.MnemText Model.ChunkMnemonic.
-From BU Require Model.MoneroMnemonic.
+From BU Require Model.MoneroMnemonic Model.AlgorandMnemonic.
 Import ListNotations.
 Open Scope string_scope.
 
@@ -32,7 +32,35 @@ Definition xmr_decode := MoneroMnemonic.decode xmr_langs xmr_word_nums xmr_word_
 Definition xmr_decode_current :=
   MoneroMnemonic.decode xmr_langs xmr_word_nums xmr_word_nums_chk words_to_chunk_current.
 
-Definition api (ask : string -> list val -> val) : list api_entry := [
+Definition algo_encode sha := AlgorandMnemonic.encode algo_wl algo_cklen algo_entropy_bit_lens algo_word_bits sha.
+Definition algo_decode sha := AlgorandMnemonic.decode algo_wl algo_word_nums algo_cklen algo_word_bits sha.
+Definition ropt (o : option (list N)) : res val :=
+  match o with Some l => Ok (VL [VL (map VN l)]) | None => Ok (VL []) end.
+Definition vnums (l : list val) : option (list N) :=
+  fold_right (fun v acc => match v, acc with VN x, Some t => Some (x :: t) | _, _ => None end) (Some []) l.
+
+(* Bip39Mnemonic._Normalize on each word (lower + NFKD, an oracle), applied [k] times: Mnemonic.FromString
+   normalises twice (FromString, then FromList), FromList once *)
+Fixpoint norm_words (ask : string -> list val -> val) (k : N) (fuel : nat) (ws : list (list N)) : list (list N) :=
+  match fuel with
+  | O => ws
+  | S f => if N.eqb k 0 then ws else norm_words ask (k - 1) f (map (fun w => o_bytes ask "mnem_norm" [VB w]) ws)
+  end.
+Definition normk ask (k : N) ws := norm_words ask k 3 ws.
+
+Definition api (ask : string -> list val -> val) : list api_entry :=
+  let sha512_256 := o_sha512_256 ask in [
+  ("algo_convert_bits", fun a => match a with [VL d; VN f; VN t] =>
+      match vnums d with Some l => ropt (AlgorandMnemonic.convert_bits l f t) | None => bad_call end
+      | _ => bad_call end);
+  ("algo_encode", fun a => match a with [VB b] =>
+      rwords (rmap (normk ask 1) (algo_encode sha512_256 b)) | _ => bad_call end);
+  ("algo_decode", fun a => match a with [VN c; VN k; VL ws] =>
+      match vwords ws with Some w => rb (algo_decode sha512_256 (negb (N.eqb c 0)) (normk ask k w))
+      | None => bad_call end | _ => bad_call end);
+  ("algo_is_valid", fun a => match a with [VN c; VN k; VL ws] =>
+      match vwords ws with Some w => is_valid (algo_decode sha512_256 (negb (N.eqb c 0)) (normk ask k w))
+      | None => bad_call end | _ => bad_call end);
   ("mnem_utf8", fun a => match a with [VB s] => rb (utf8 s) | _ => bad_call end);
   ("mnem_crc32", fun a => match a with [VB b] => Ok (VN (crc32 b)) | _ => bad_call end);
   ("chunk_encode", fun a => match a with [VN l; VN e; VB b] =>
